@@ -18,6 +18,7 @@ package runtime
 //@ props C11
 //@ requires addr != nil
 //@ ensures C11 own-state: result != nil && result == semaMap[uintptr(addr)] && has(semaMap, uintptr(addr))
+//@ ensures C11 registrations-kept: forall k uintptr :: old(has(semaMap, k)) && old(semaMap[k]) != nil ==> has(semaMap, k) && semaMap[k] == old(semaMap[k])
 //@ modifies everything
 
 //@ func getNotifyState
@@ -36,7 +37,10 @@ package runtime
 //@ requires addr != nil
 //@ loop 1 invariant none-taken: ghost(cas_dec) == 0 && ghost(cas_other) == 0 && ghost(add_one) == 0 && ghost(add_other) == 0 && ghost(stores) == 0
 //@ loop 2 invariant none-taken: ghost(cas_dec) == 0 && ghost(cas_other) == 0 && ghost(add_one) == 0 && ghost(add_other) == 0 && ghost(stores) == 0
+//@ loop 1 invariant registrations-kept: forall k uintptr :: old(has(semaMap, k)) && old(semaMap[k]) != nil ==> has(semaMap, k) && semaMap[k] == old(semaMap[k])
+//@ loop 2 invariant registrations-kept: forall k uintptr :: old(has(semaMap, k)) && old(semaMap[k]) != nil ==> has(semaMap, k) && semaMap[k] == old(semaMap[k])
 //@ ensures C11 one-permit: ghost(cas_dec) == 1
+//@ ensures C11 registrations-kept: forall k uintptr :: old(has(semaMap, k)) && old(semaMap[k]) != nil ==> has(semaMap, k) && semaMap[k] == old(semaMap[k])
 //@ ensures C11 nothing-else: ghost(cas_other) == 0 && ghost(add_one) == 0 && ghost(add_other) == 0 && ghost(stores) == 0
 //@ modifies everything
 
@@ -47,6 +51,7 @@ package runtime
 //@ requires addr != nil
 //@ ensures C11 one-permit: ghost(add_one) == 1 && ghost(add_other) == 0 && ghost(cas_dec) == 0 && ghost(cas_other) == 0 && ghost(stores) == 0
 //@ ensures C11 wakes-a-waiter: cs_old(self.waiters) != 0 ==> ghost(signals) >= 1
+//@ ensures C11 registrations-kept: forall k uintptr :: old(has(semaMap, k)) && old(semaMap[k]) != nil ==> has(semaMap, k) && semaMap[k] == old(semaMap[k])
 //@ modifies everything
 
 //@ func sync_runtime_notifyListAdd
